@@ -385,8 +385,14 @@ def _drive_chunk(run: Run, test_fn: Callable[..., None], strategy_args: Dict[str
         except hypothesis.errors.Unsatisfiable as ex:
             raise HarnessError(f"unsatisfiable: {ex}") from ex
         except hypothesis.errors.Flaky as ex:
-            # The body is not a pure function of its input: that is our bug or a genuine
-            # history dependence; the check decides. Default: harness error.
+            # The body was not a pure function of its input. If it had reported a violation of the property when it was first run, that
+            # observation stands: the library gave that outcome for that input, and giving another one on re-execution means it carries
+            # state from one evaluation to the next in this process. Without such an observation it is a harness problem.
+            if first_found:
+                f = first_found[0]
+                run.notes.append("a violation was observed once and not on immediate re-execution of the same case: state carried between evaluations in one process")
+                run.record_found(Found(f.key, dict(f.case, not_reproduced_on_reexecution=True) if isinstance(f.case, dict) else f.case, f.detail))
+                continue
             raise HarnessError(f"flaky: {ex}") from ex
         except Exception as ex:
             # Hypothesis' shrinker itself failed (seen: ValueError in intervalsets.index on text strategies) after the body had
